@@ -11,5 +11,7 @@ def foo(a: f32[4]):
         x_1 = 1.0
         x = 2.0
         a[i] = x + x_1
+import re
 out = str(foo)
-verdict("F7", "x_1 + x_1" in out, "two distinct variables printed as x_1")
+decls = re.findall(r"^\s+(\w+): f32", out, flags=re.M)[1:]   # the two inner allocations
+verdict("F7", len(decls) == 2 and decls[0] == decls[1], f"inner allocations printed as {decls}")
